@@ -6,7 +6,7 @@
 set -u
 export GOFLAGS=-mod=mod GOPROXY=off GOSUMDB=off GOTOOLCHAIN=local
 P="$1"; M="$2"; shift 2
-PROP="${P%r2}"   # round-2 seeds live in <prop>r2 directories
+PROP=$(echo "$P" | sed "s/r[0-9]$//")   # later-round seeds live in <prop>r<N> directories
 SRC=/tmp/seed/out/$P
 DST=/verif/seeded/$P-$M
 W=/tmp/seedverify-$P-$M
